@@ -206,6 +206,11 @@ impl<OT: OtSender<Msg = Block> + SemiHonest> OtReceiver for Receiver<OT> {
             rng.fill_bytes(k1.as_mut());
             ks.push((k0, k1));
         }
+        #[cfg(feature = "__verif")]
+        crate::verif::probe(
+            "fresh:alsz_seed_pairs",
+            &ks.iter().flat_map(|(a, b)| [a.as_ref().to_vec(), b.as_ref().to_vec()].concat()).collect::<Vec<u8>>(),
+        );
         ot.send(channel, &ks, rng, p_to, shared_rand).await?;
         let rngs = ks
             .into_iter()
